@@ -29,7 +29,7 @@ def Quirks.b51f440 : Quirks := ⟨true, true⟩
 
 /-- THE SWITCH: the deviations of the code under test.  After F105 / F106 are fixed in /repo set
 the corresponding field to `false` (both fixed: `Quirks.none`). -/
-def currentCode : Quirks := Quirks.b51f440
+def currentCode : Quirks := Quirks.none
 
 def lowerKV (p : KV) : KV := ⟨p.key, p.delim, p.val.toLower⟩
 
